@@ -139,12 +139,14 @@ P = {
     "C11.d": "navigation results: an object selected by name is returned with the path extended by it; a name part is consumed iff it selected the object",
     "C11.e": "RRELDots yields the ancestor only if all parent steps could be taken, otherwise no match",
     "C11.c": "objects found by a navigation step are recognised by None-test, not by truth value",
+    "C11.g": "by evaluation of RRELExpression.__init__ on the sample trees: the letter m anywhere in the flags turns importURI on, p turns use_proxy on (+m: +p: +mp: +pm:), no flags leave both off; every navigation node of the tree points to its expression",
   },
   declined="soundness/completeness of the lazy search with the visited set over all expressions x models (the bulk of C11)",
   technique="decision-table extraction + interface-completeness check over the RREL node classes"),
 "C12": dict(
   decided={
     "C12.f": "small RREL functions by evaluation: brackets always print '(' content ')'; the navigation visitor tells a fixed name by the presence of a string literal child (never by its text); a sequence starts locally / at the root iff one of its alternatives does",
+    "C12.g": "by evaluation: for 34 sample expressions the tree the RRELVisitor methods build from the parse (node classes instantiated by interpreting their __init__) prints, through the classes' __repr__, as the canonical spelling of the expression - bracket groups keep their brackets, every * follows a bracket group, dots and flags are printed as written, ^ prints as (..)*",
     "C12.e": "fixed names round-trip: for every word of the string_value token language up to length 5 (enumerated from the regex automata), reading the literal, printing the name and reading the printed literal gives the same name, and the printed literal is a word of the token language (by abstract evaluation of visit_string_value and RRELNavigation.__repr__)",
     "C12.a": "no constructor field of an RREL node is dropped by its printer; RRELExpression prints its flags for every non-empty flag set",
     "C12.b": "every literal a printer emits can be segmented into terminals of the RREL grammar (string terminals and literal characters of its regex tokens)",
